@@ -47,10 +47,12 @@ def r1_update(ctx):
     fn = F.fn(BEST + "::update")
     bad = []
     n = 0
-    for cur in ("empty", "lt", "eq", "gt"):
+    for cur in ("empty", "empty-inf", "lt", "eq", "gt", "eq-inf"):
         home = 10000
-        ranks = {"o:c": 1, "o:k": {"lt": 0, "eq": 1, "gt": 2, "empty": 0}[cur]}
-        current = NONE if cur == "empty" else some(ind("c"))
+        # (`-inf` variants: the candidate's objective value is +infinity - an infeasible individual is still the best seen so
+        # far when nothing better was seen, and a tie at infinity is a tie)
+        ranks = {"o:c": float("inf") if cur == "eq-inf" else 1, "o:k": {"lt": 0, "eq": 1, "gt": 2, "empty": 0, "empty-inf": float("inf"), "eq-inf": float("inf")}[cur]}
+        current = NONE if cur.startswith("empty") else some(ind("c"))
         cand = ind("k")
         it = Interp(fn.body, chain(coll_oracle, std_oracle), [Ref(home, [], frame="root"), cand], facts=F, inline=INLINE)
         it.extra_env = {home: Agg("adt", BEST, "BestIndividual", [current])}
@@ -64,13 +66,13 @@ def r1_update(ctx):
             after = p.env.get(home)
             held = after.fields[0] if isinstance(after, Agg) else None
             tag = otag(held.fields[0]) if isinstance(held, Agg) and held.variant == "Some" else None
-            want_tag, want_ret = {"empty": ("o:k", True), "lt": ("o:k", True), "eq": ("o:c", False), "gt": ("o:c", False)}[cur]
+            want_tag, want_ret = {"empty": ("o:k", True), "empty-inf": ("o:k", True), "lt": ("o:k", True), "eq": ("o:c", False), "gt": ("o:c", False), "eq-inf": ("o:c", False)}[cur]
             if tag != want_tag or p.ret is not want_ret:
                 bad.append((cur, "keeps %s and returns %s; expected to keep %s and return %s" % (tag, p.ret, want_tag, want_ret)))
             elif tag == "o:k" and held.fields[0].fields[0] != cand.fields[0]:
                 bad.append((cur, "stores objective of the candidate with another solution"))
-    names = {"empty": "no best yet", "lt": "candidate strictly better", "eq": "candidate equal to the best", "gt": "candidate worse"}
-    ctx.check(not bad, "C07.R1", fn.key, "replace-iff-strictly-better", "with %s: update %s" % (names[bad[0][0]] if bad else "", bad[0][1] if bad else ""), detail="4 scenarios", loc=fn.loc())
+    names = {"empty": "no best yet", "empty-inf": "no best yet, candidate with objective +inf", "lt": "candidate strictly better", "eq": "candidate equal to the best", "gt": "candidate worse", "eq-inf": "candidate and best both +inf"}
+    ctx.check(not bad, "C07.R1", fn.key, "replace-iff-strictly-better", "with %s: update %s" % (names[bad[0][0]] if bad else "", bad[0][1] if bad else ""), detail="6 scenarios", loc=fn.loc())
     ctx.count("update_scenarios", n)
 
 
